@@ -27,6 +27,9 @@ Edge == S_(<<Pm(3, 0, 1000), Pm(9, 0, 1), Pm(31337, 65535, 65535), Pm(4, 32768, 
 SettingsS == {Chrome, Firefox, Edge, S_(<<Pm(4, 0, 0)>>)}
 WuS == {<<>>, <<Wu(0, 239, 1, FALSE)>>, <<Wu(0, 191, 1, TRUE)>>, <<Wu(0, 32767, 65535, FALSE)>>, <<Wu(0, 0, 1, FALSE)>>, <<Wu(3, 0, 77, FALSE), Wu(0, 0, 12, FALSE)>>}
 PrS == {<<>>, <<Pr(3, FALSE, 0, 0, 200), Pr(5, FALSE, 0, 0, 100), Pr(7, TRUE, 0, 3, 0)>>, <<Pr(1, TRUE, 32767, 65535, 255)>>}
+\* PRIORITY frames whose dependency coincides with, or lies next to, their own stream id (stream 0 included), weights 0 / 255:
+\* every PRIORITY frame is rendered, whatever its fields say
+PrX == {<<Pr(5, FALSE, 0, 5, 9), Pr(0, TRUE, 0, 0, 255), Pr(7, TRUE, 0, 7, 0)>>, <<Pr(5, FALSE, 0, 4, 0), Pr(5, TRUE, 0, 6, 1), Pr(0, FALSE, 0, 1, 200)>>, <<Pr(1, FALSE, 0, 1, 15)>>}
 Orders == {<<":method", ":path", ":authority", ":scheme">>, <<":method", ":authority", ":scheme", ":path">>, <<":method", ":scheme", ":path", ":authority">>,
            <<":method", ":path", ":scheme">>,
            \* regular fields between the pseudo-headers (malformed per RFC 7540 8.1.2.1, but the order of the pseudo-headers is still defined)
@@ -40,6 +43,8 @@ Seqs ==
      {<<s>> \o w \o p \o <<Hd(o, Plain)>> : s \in SettingsS, w \in WuS, p \in PrS, o \in Orders}                 \* the usual order
   \cup {w \o <<s>> \o p \o <<Hd(o, Plain)>> : s \in {Chrome}, w \in WuS \ {<<>>}, p \in PrS, o \in {<<":method", ":path", ":authority", ":scheme">>}}   \* WINDOW_UPDATE first
   \cup {p \o <<PingF>> \o <<s>> \o <<Hd(o, fr)>> \o <<DataF>> : s \in {Firefox}, p \in PrS, o \in Orders, fr \in Framings}
+  \cup {<<s>> \o w \o p \o <<Hd(o, Plain)>> : s \in {Chrome, Edge}, w \in {<<>>, <<Wu(0, 239, 1, FALSE)>>}, p \in PrX, o \in {<<":method", ":path", ":authority", ":scheme">>}}
+  \cup {p \o <<PingF>> \o <<s>> \o <<Hd(o, fr)>> \o <<DataF>> : s \in {Firefox}, p \in PrX, o \in {<<":method", ":scheme", ":path", ":authority">>}, fr \in {Plain, [Plain EXCEPT !.cuts = <<2>>]}}
   \cup {<<Hd(<<":method", ":path", ":authority", ":scheme">>, Plain), Firefox, Wu(0, 0, 9, FALSE)>>}                  \* HEADERS before SETTINGS
   \cup {<<Wu(0, 0, 9, FALSE), PingF>>, <<Hd(<<":method", ":path">>, Plain)>>}                                         \* no SETTINGS at all
   \cup {<<s, S_(<<Pm(1, 0, 0)>>), Wu(0, 0, 5, FALSE)>> : s \in {Chrome}}                                             \* second SETTINGS ignored
